@@ -2,7 +2,7 @@
 # Builds the correspondence harness from /repo's current working tree with an overlay:
 # no file is added to /repo. Output: /verif/.cache/bin/harness
 set -e
-V=/verif
+V=$(cd "$(dirname "$0")" && pwd)   # /verif, or a snapshot of it (vp run)
 REPO=${VERIF_REPO:-/repo}
 export GOFLAGS=-mod=mod GOPROXY=off GOSUMDB=off GOTOOLCHAIN=local CARGO_NET_OFFLINE=true
 BIN=$V/.cache/bin
@@ -15,11 +15,11 @@ if [ "$REPO" != "/repo" ]; then
 fi
 mkdir -p $BIN
 export VERIF_OVL=$OVL
-python3 - "$REPO" "$OVL" <<'PY'
+python3 - "$REPO" "$OVL" "$V" <<'PY'
 import json, os, sys, glob
 repo = sys.argv[1]
 ovl = sys.argv[2]
-V = '/verif'
+V = sys.argv[3]
 rep = {}
 for f in glob.glob(V + '/harness/main/*.go'):
     rep[repo + '/pkg/netpol/zz_verifharness/' + os.path.basename(f)] = f
